@@ -218,6 +218,13 @@ class Machine:
 
 
 def run_histories(universe, refs, histories, stats=None):
+    import contextlib
+    import io
+    with contextlib.redirect_stdout(io.StringIO()):
+        return _run_histories(universe, refs, histories, stats)
+
+
+def _run_histories(universe, refs, histories, stats=None):
     """Execute histories back to back in THIS interpreter; returns None or a violation dict."""
     for hi, ops in enumerate(histories):
         m = Machine(universe, refs, stats)
@@ -275,6 +282,10 @@ def shrink(world, universe, refs, histories, want, budget=60):
 
 # ------------------------------------------------------------------------------------------------ worker / check
 def universe_worker(job):
+    return engine.run_isolated(_universe_worker, job)
+
+
+def _universe_worker(job):
     from . import dznbuild
     dznbuild.ensure_repo_dznpy()
     seed, u, n_hist = job['seed'], job['u'], job['n_hist']
